@@ -66,7 +66,8 @@ def loadOne (T : Tables) (L : Layout) : RM RObj :=
   RM.bind (liftE (allocE [nbond, 3])) fun _ =>
   RM.bind (repeatN (RM.bind nextLine fun l => liftE (bondLine L l)) nbond.toNat) fun _ =>
   RM.bind (seekEnd (L.sepLine ++ ['\n'])) fun _ =>
-  RM.pure { atcoords := some [natom.toNat, 3], atnums := some [natom.toNat], bonds := some [nbond.toNat, 3] }
+  RM.pure { atcoords := some [natom.toNat, 3], atnums := some [natom.toNat], bonds := some [nbond.toNat, 3],
+            hasTitle := true }
 
 def read (T : Tables) (L : Layout) (ls : List Str) : Out RObj := run (loadOne T L) ls
 
